@@ -1,33 +1,55 @@
 ------------------------------ MODULE PipelineEq ------------------------------
 (* C11 as a relation between two runs of martinize2 on two presentations of one structure.
-   A run is abstracted from its OUTPUT FILES by independent readers:
+
+   (I) FILE LEVEL.  A run is abstracted from its OUTPUT FILES by independent readers:
      top    : Seq([type, resid, resname, name, cg, charge])          the [ atoms ] section, in order
-     inters : Seq([sec, atoms : Seq(Int), params : Seq([k : "s" | "n", s, n])])   every interaction line
+     inters : Seq([file, sec, atoms : Seq(Int), params : Seq([k : "s" | "n", s, n])])   every interaction line
               (numeric parameters as integers scaled by 10^4, so that float noise in the last printed digit is bounded)
      coords : Seq(<<x, y, z>>)  integer thousandths of an Angstrom, in file order
    motion  : the rigid motion applied to presentation 2: axis permutation perm, signs sg, integer shift sh
-   The topologies must be equal (interactions as bags) and the coordinates must differ by exactly that motion. *)
+   The topologies must be equal (interactions as bags) and the coordinates must differ by exactly that motion.
+
+   (II) STAGE LEVEL.  A run is the sequence of its pipeline stages; after stage i the system is abstracted presentation-free
+   (tables are content-addressed: run.idx[i] = <<ia, ie, ii, io>> points into run.atoms / edges / inters / occ):
+     atoms  : Seq(<<key, attrs, count>>)          key = <<chain, resid, icode, name>>; hydrogens are named after their heavy atom
+     edges  : Seq(<<key, key, count>>)
+     inters : Seq(<<type, Seq(key), Seq(<<k, s, n>>), meta, count>>)
+     occ    : Seq(<<key, molecule, has position, <<x, y, z>>>>)    one per atom, canonically ordered
+   StageEq(i): the four components are equal, coordinates follow the motion.  The judge returns the FIRST stage at which the
+   two presentations differ and how (atoms / bonds / interactions / molecule partition / coordinates).
+
+   (III) ADMISSIBLE DIFFERENCES.  thr lists the items that lie numerically ON a geometric threshold (distance-guessed bond,
+   cysteine distance, elastic cut-off; decided by the driver with a 1e-6 relative band).  A pair is accepted only if every
+   difference is explained by one of them: an edge between the two residues of a bond / cys item; an interaction that involves
+   both residues of such an item; the elastic bond between exactly the two beads of an elastic item.  Atoms, the molecule
+   partition and coordinates admit no difference. *)
 EXTENDS Integers, Sequences, FiniteSets, TLC
 
 Abs(x) == IF x < 0 THEN -x ELSE x
+SeqSet(s) == {s[i] : i \in DOMAIN s}
 ParamClose(p, q) == p.k = q.k /\ (IF p.k = "s" THEN p.s = q.s ELSE Abs(p.n - q.n) <= 2)
 InterClose(a, b) ==
   /\ a.sec = b.sec /\ a.atoms = b.atoms /\ Len(a.params) = Len(b.params)
   /\ \A i \in DOMAIN a.params : ParamClose(a.params[i], b.params[i])
 
-\* bag matching for small differences: every interaction of one run has a close partner in the other, counts equal per key
+\* bag matching for small differences: every interaction of one run has a close partner in the other, counts equal per key.
+\* Lines with an identical partner are matched by set membership; only the others are searched for a close partner.
 Key(x) == <<x.sec, x.atoms>>
 CountKey(s, k) == Cardinality({i \in DOMAIN s : Key(s[i]) = k})
+NoTwin(a, b) == LET B == SeqSet(b) IN {i \in DOMAIN a : a[i] \notin B}
+Unmatched(a, b) == {i \in NoTwin(a, b) : ~\E j \in DOMAIN b : InterClose(a[i], b[j])}
+MaxNoise == 300     \* more lines than this without an identical partner are not float noise
 SameInteractions(a, b) ==
   /\ Len(a) = Len(b)
-  /\ \A i \in DOMAIN a : CountKey(a, Key(a[i])) = CountKey(b, Key(a[i]))
-  /\ \A i \in DOMAIN a : \E j \in DOMAIN b : InterClose(a[i], b[j])
-  /\ \A j \in DOMAIN b : \E i \in DOMAIN a : InterClose(a[i], b[j])
+  /\ Cardinality(NoTwin(a, b)) <= MaxNoise /\ Cardinality(NoTwin(b, a)) <= MaxNoise
+  /\ \A i \in NoTwin(a, b) : CountKey(a, Key(a[i])) = CountKey(b, Key(a[i]))
+  /\ Unmatched(a, b) = {} /\ Unmatched(b, a) = {}
 
 Move(m, c) == <<m.sg[1] * c[m.perm[1]] + m.sh[1], m.sg[2] * c[m.perm[2]] + m.sh[2], m.sg[3] * c[m.perm[3]] + m.sh[3]>>
+Follows(m, c1, c2) == \A d \in 1..3 : Abs(Move(m, c1)[d] - c2[d]) <= 2
 CoordsFollow(m, c1, c2) ==
   /\ Len(c1) = Len(c2)
-  /\ \A i \in DOMAIN c1 : \A d \in 1..3 : Abs(Move(m, c1[i])[d] - c2[i][d]) <= 2
+  /\ \A i \in DOMAIN c1 : Follows(m, c1[i], c2[i])
 
 JudgePair(e) ==
   IF e.one.ok # e.two.ok THEN "one-presentation-accepted-the-other-refused"
@@ -37,4 +59,102 @@ JudgePair(e) ==
   ELSE IF ~SameInteractions(e.one.inters, e.two.inters) THEN "interactions-differ"
   ELSE IF ~CoordsFollow(e.motion, e.one.coords, e.two.coords) THEN "coordinates-do-not-follow-the-rigid-motion"
   ELSE "ok"
+
+\* file level with admissible differences: fadm = Seq([file, A, B, two])
+FAdm(fadm, x) == \E t \in SeqSet(fadm) :
+  /\ x.file = t.file /\ (t.two => Len(x.atoms) = 2)
+  /\ \E i \in DOMAIN x.atoms : x.atoms[i] \in SeqSet(t.A)
+  /\ \E i \in DOMAIN x.atoms : x.atoms[i] \in SeqSet(t.B)
+JudgeFiles(e) ==
+  IF e.fadm = <<>> THEN JudgePair(e)
+  ELSE IF e.one.ok # e.two.ok THEN "one-presentation-accepted-the-other-refused"
+  ELSE IF ~e.one.ok THEN "ok"
+  ELSE IF e.one.top # e.two.top THEN "particles-differ"
+  ELSE IF ~CoordsFollow(e.motion, e.one.coords, e.two.coords) THEN "coordinates-do-not-follow-the-rigid-motion"
+  ELSE LET a == e.one.inters  b == e.two.inters
+           u1 == Unmatched(a, b)  u2 == Unmatched(b, a)
+       IN IF Cardinality(NoTwin(a, b)) > MaxNoise \/ Cardinality(NoTwin(b, a)) > MaxNoise THEN "interactions-differ"
+          ELSE IF \E i \in u1 : ~FAdm(e.fadm, a[i]) THEN "interactions-differ"
+          ELSE IF \E j \in u2 : ~FAdm(e.fadm, b[j]) THEN "interactions-differ"
+          ELSE IF Len(a) - Cardinality(u1) # Len(b) - Cardinality(u2) THEN "interactions-differ"
+          ELSE IF u1 = {} /\ u2 = {} THEN "ok" ELSE "ok-admissible"
+
+-----------------------------------------------------------------------------
+\* (II) + (III) stage level
+ResOf(k) == <<k[1], k[2], k[3]>>
+AdmEdge(thr, x) == \E t \in SeqSet(thr) : t.kind # "elastic" /\ {ResOf(x[1]), ResOf(x[2])} = {t.ra, t.rb}
+AdmInter(thr, x) == \E t \in SeqSet(thr) :
+  IF t.kind = "elastic" THEN x[1] = "bonds" /\ Len(x[2]) = 2 /\ {x[2][1], x[2][2]} = {t.ka, t.kb}
+  ELSE LET R == {ResOf(x[2][i]) : i \in DOMAIN x[2]} IN t.ra \in R /\ t.rb \in R
+
+PClose(p, q) == p[1] = q[1] /\ (IF p[1] = "s" THEN p[2] = q[2] ELSE Abs(p[3] - q[3]) <= 2)
+IClose(x, y) ==
+  /\ x[1] = y[1] /\ x[2] = y[2] /\ x[4] = y[4] /\ x[5] = y[5] /\ Len(x[3]) = Len(y[3])
+  /\ \A i \in DOMAIN x[3] : PClose(x[3][i], y[3][i])
+
+OK(n) == [how |-> "ok", adm |-> n, where |-> <<>>]
+Bad(how, w) == [how |-> how, adm |-> 0, where |-> w]
+Pick(S) == IF S = {} THEN <<>> ELSE <<CHOOSE x \in S : TRUE>>
+
+DiffAtoms(a1, a2) ==
+  IF a1 = a2 THEN OK(0)
+  ELSE LET s1 == SeqSet(a1)  s2 == SeqSet(a2) IN Bad("atoms", Pick(s1 \ s2) \o Pick(s2 \ s1))
+
+DiffEdges(thr, e1, e2) ==
+  IF e1 = e2 THEN OK(0)
+  ELSE LET s1 == SeqSet(e1)  s2 == SeqSet(e2)
+           d == (s1 \ s2) \cup (s2 \ s1)
+           bad == {x \in d : ~AdmEdge(thr, x)}
+       IN IF bad # {} THEN Bad("bonds", Pick(bad \cap s1) \o Pick(bad \cap s2)) ELSE OK(Cardinality(d))
+
+DiffInters(thr, i1, i2) ==
+  IF i1 = i2 THEN OK(0)
+  ELSE LET s1 == SeqSet(i1)  s2 == SeqSet(i2)
+           l1 == s1 \ s2  l2 == s2 \ s1
+       IN IF Cardinality(l1) > MaxNoise \/ Cardinality(l2) > MaxNoise THEN Bad("interactions", Pick(l1) \o Pick(l2))
+          ELSE LET u1 == {x \in l1 : ~\E y \in l2 : IClose(x, y)}
+                   u2 == {y \in l2 : ~\E x \in l1 : IClose(x, y)}
+                   bad == {x \in u1 \cup u2 : ~AdmInter(thr, x)}
+               IN IF bad # {} THEN Bad("interactions", Pick(bad \cap u1) \o Pick(bad \cap u2))
+                  ELSE OK(Cardinality(u1) + Cardinality(u2))
+
+DiffOcc(m, o1, o2) ==
+  IF Len(o1) # Len(o2) THEN Bad("atoms", <<Len(o1), Len(o2)>>)
+  ELSE IF \E i \in DOMAIN o1 : o1[i][1] # o2[i][1]
+       THEN LET i == CHOOSE i \in DOMAIN o1 : o1[i][1] # o2[i][1] IN Bad("atoms", <<o1[i], o2[i]>>)
+  ELSE IF \E i \in DOMAIN o1 : o1[i][2] # o2[i][2]
+       THEN LET i == CHOOSE i \in DOMAIN o1 : o1[i][2] # o2[i][2] IN Bad("molecule partition", <<o1[i], o2[i]>>)
+  ELSE IF \E i \in DOMAIN o1 : o1[i][3] # o2[i][3] \/ (o1[i][3] /\ ~Follows(m, o1[i][4], o2[i][4]))
+       THEN LET i == CHOOSE i \in DOMAIN o1 : o1[i][3] # o2[i][3] \/ (o1[i][3] /\ ~Follows(m, o1[i][4], o2[i][4]))
+            IN Bad("coordinates not following the motion", <<o1[i], o2[i]>>)
+  ELSE OK(0)
+
+\* one stage; a component whose table entries are those of the previous stage in both runs was judged there
+Same(r1, r2, i, c) == i > 1 /\ r1.idx[i][c] = r1.idx[i - 1][c] /\ r2.idx[i][c] = r2.idx[i - 1][c]
+StageDiff(r1, r2, m, thr, i) ==
+  LET va == IF Same(r1, r2, i, 1) THEN OK(0) ELSE DiffAtoms(r1.atoms[r1.idx[i][1]], r2.atoms[r2.idx[i][1]])
+      ve == IF Same(r1, r2, i, 2) THEN OK(0) ELSE DiffEdges(thr, r1.edges[r1.idx[i][2]], r2.edges[r2.idx[i][2]])
+      vi == IF Same(r1, r2, i, 3) THEN OK(0) ELSE DiffInters(thr, r1.inters[r1.idx[i][3]], r2.inters[r2.idx[i][3]])
+      vo == IF Same(r1, r2, i, 4) THEN OK(0) ELSE DiffOcc(m, r1.occ[r1.idx[i][4]], r2.occ[r2.idx[i][4]])
+  IN IF va.how # "ok" THEN va
+     ELSE IF ve.how # "ok" THEN ve
+     ELSE IF vi.how # "ok" THEN vi
+     ELSE IF vo.how # "ok" THEN vo
+     ELSE OK(va.adm + ve.adm + vi.adm + vo.adm)
+
+RECURSIVE Scan(_, _, _, _, _, _)
+Scan(r1, r2, m, thr, i, adm) ==
+  IF i > Len(r1.names) THEN [st |-> "ok", stage |-> 0, name |-> "", how |-> "", where |-> <<>>, adm |-> adm]
+  ELSE LET v == StageDiff(r1, r2, m, thr, i)
+       IN IF v.how # "ok" THEN [st |-> "differs", stage |-> i, name |-> r1.names[i], how |-> v.how, where |-> v.where, adm |-> adm]
+          ELSE Scan(r1, r2, m, thr, i + 1, adm + v.adm)
+
+Verdict(st, files) == [st |-> st, stage |-> 0, name |-> "", how |-> "", where |-> <<>>, adm |-> 0, files |-> files]
+JudgeStages(r1, r2, m, thr, fadm) ==
+  LET files == JudgeFiles([one |-> r1.files, two |-> r2.files, motion |-> m, fadm |-> fadm])
+  IN IF r1.names # r2.names THEN
+          (IF r1.ok # r2.ok THEN Verdict("one-presentation-accepted-the-other-refused", files) ELSE Verdict("stage-lists-differ", files))
+     ELSE LET s == Scan(r1, r2, m, thr, 1, 0)
+          IN [st |-> IF s.st = "ok" /\ r1.ok # r2.ok THEN "one-presentation-accepted-the-other-refused" ELSE s.st,
+              stage |-> s.stage, name |-> s.name, how |-> s.how, where |-> s.where, adm |-> s.adm, files |-> files]
 =============================================================================
